@@ -11,7 +11,7 @@
 (* reaches it.  FileNames is the implementation-shaped prediction of the    *)
 (* names emitTheC gives the parts of a split unit (drift only).             *)
 (***************************************************************************)
-EXTENDS Naturals, Integers, Sequences, FiniteSets, TLC, Json
+EXTENDS Naturals, Integers, Sequences, FiniteSets, TLC, Json, CSplitFn
 
 CONSTANTS IdLenNat,      \* non-negative arguments tried for -Cidlen=<n> (-1 is added: the code maps negatives to 1)
           SMaxNat,       \* non-negative arguments tried for -Csmax=<n>
@@ -70,6 +70,11 @@ InScope == idhash /\ (idlen = 0 \/ idlen >= DefaultIdLen)
 EffLines == lines /\ debug
 (* splitting happens only with a positive statement limit (gc0OverSMax) *)
 MaySplit == smax > 0
+(* whether a unit is split is a function of its statement estimate S and the limit (CSplitFn.tla; the machine that    *)
+(* cuts the unit, with the facts every site of genc.c / emit.c derives from the decision, is CSplit.tla; the limits at *)
+(* which a unit of measured S is replayed come from CSplitPlan.tla)                                                     *)
+SplitsUnit(S) == OverSMax(S, smax)
+UnitParts(S)  == NParts(S, smax)
 
 (* emitTheC: a unit of n C parts (n >= 1).  One part: <base>.c.  More: <base>.h holds the shared     *)
 (* declarations, the first part is <base>.c, part k (k >= 2) is the first five characters of the      *)
@@ -83,8 +88,10 @@ Group(o) == GroupOf(o)
 Canonical == CanonicalSeq(opts)
 Override  == Len(opts) = 2 /\ Group(opts[1]) = Group(opts[2])
 
+UnitFiles(base5, base, S) == FileNames(base5, base, UnitParts(S))
 Config == [opts |-> opts, std |-> StdC, lines |-> lines, debug |-> debug, efflines |-> EffLines, idhash |-> idhash, idlen |-> idlen, smax |-> smax,
-           inscope |-> InScope, canonical |-> Canonical, files3 |-> FileNames("p", "p", IF MaySplit THEN 3 ELSE 1)]
+           inscope |-> InScope, canonical |-> Canonical, files3 |-> FileNames("p", "p", IF MaySplit THEN 3 ELSE 1),
+           smallest_split_unit |-> (IF MaySplit THEN smax + 1 ELSE 0)]
 Export == (Canonical \/ Override) /\ PrintT("CONFIG " \o ToJson(Config)) /\ UNCHANGED vars
 
 Spec == Init /\ [][Next \/ Export]_vars
@@ -105,4 +112,12 @@ LastWins ==
 (* no option sequence leaves the limits negative *)
 NoNegative == idlen >= 0 /\ smax >= 0
 DefaultsInScope == opts = <<>> => InScope /\ ~MaySplit /\ StdC = ConfStdC
+(* the split decision: only under a positive limit, exactly for the units whose estimate exceeds it; a unit of exactly *)
+(* smax statements is ONE file, one of smax + 1 is header + two files; the number of files never decreases with S      *)
+SplitDecision == \A S \in 0..(3 * smax + 2) :
+                   /\ SplitsUnit(S) = (MaySplit /\ S > smax)
+                   /\ (SplitsUnit(S) => UnitParts(S) >= 2 /\ (UnitParts(S) - 1) * smax < S /\ S <= UnitParts(S) * smax)
+                   /\ (~SplitsUnit(S) => UnitParts(S) = 1 /\ Len(UnitFiles("p", "p", S)) = 1)
+                   /\ (SplitsUnit(S) => Len(UnitFiles("p", "p", S)) = UnitParts(S) + 1)
+                   /\ (S > 0 => UnitParts(S - 1) <= UnitParts(S))
 =============================================================================
